@@ -67,8 +67,9 @@ class NotifyRig:
         self.g = GattWorld(3, 1, seed=seed, eatt=True)
         self.bearers = [Bearer(i) for i in range(3)]
         self.calls = []  # (bearer, char, 'fn'|'ev', value)
-        self.gate_open = True
-        self.held = []
+        self.hold = set()  # bearers whose confirmations are currently held back
+        self.held = []  # (bearer index, release function)
+        self.fail_send = set()  # bearers on which the server's transmission of a notification/indication raises
 
     def __enter__(self):
         self.g.__enter__()
@@ -114,6 +115,8 @@ class NotifyRig:
 
         def srv_tap(h, pdu):
             if pdu and pdu[0] in (M.OP_NOTIFICATION, M.OP_INDICATION, 0x23) and h in by_handle:
+                if by_handle[h].idx in self.fail_send:
+                    raise InjectedSendFailure(f'send on bearer {by_handle[h].idx} fails')
                 by_handle[h].wire.append((pdu[0], struct.unpack_from('<H', pdu, 1)[0] if len(pdu) >= 3 else None, pdu[3:]))
             return True
 
@@ -121,6 +124,8 @@ class NotifyRig:
 
         def srv_ch_tap(pdu):
             if pdu and pdu[0] in (M.OP_NOTIFICATION, M.OP_INDICATION, 0x23):
+                if 1 in self.fail_send:
+                    raise InjectedSendFailure('send on bearer 1 fails')
                 b1.wire.append((pdu[0], struct.unpack_from('<H', pdu, 1)[0] if len(pdu) >= 3 else None, pdu[3:]))
             return True
 
@@ -131,8 +136,8 @@ class NotifyRig:
             def tap(h, pdu):
                 if pdu and pdu[0] == M.OP_CONFIRMATION:
                     bearer.confirmations += 1
-                    if not self.gate_open:
-                        self.held.append(lambda: real(h, 0x0004, pdu))
+                    if bearer.idx in self.hold:
+                        self.held.append((bearer.idx, lambda: real(h, 0x0004, pdu)))
                         return False
                 return True
 
@@ -144,8 +149,8 @@ class NotifyRig:
         def cl_ch_tap(pdu):
             if pdu and pdu[0] == M.OP_CONFIRMATION:
                 b1.confirmations += 1
-                if not self.gate_open:
-                    self.held.append(lambda: real_write(pdu))
+                if 1 in self.hold:
+                    self.held.append((1, lambda: real_write(pdu)))
                     return False
             return True
 
@@ -215,7 +220,7 @@ class NotifyRig:
             b.confirmations = 0
         self.calls = []
         self.held = []
-        self.gate_open = False
+        self.hold = {0, 1, 2}
         attr = self.attr[char]
         srv = g.server
         if api == 'notify_subscribers':
@@ -234,9 +239,9 @@ class NotifyRig:
             'done_before_confirmation': task.done(),
             'confirmations_held': len(self.held),
         }
-        self.gate_open = True
+        self.hold = set()
         held, self.held = self.held, []
-        for h in held:
+        for _bi, h in held:
             h()
         g.loop.run_quiescent()
         res['done_after_confirmation'] = task.done()
@@ -252,6 +257,60 @@ class NotifyRig:
             g.loop.run_quiescent()
         res['loop_exceptions'] = g.loop.collect_exceptions()
         return res
+
+
+    def _start(self, api, force, value, char='X'):
+        attr = self.attr[char]
+        srv = self.g.server
+        coro = srv.notify_subscribers(attr, value, force) if api == 'notify_subscribers' else srv.indicate_subscribers(attr, value, force)
+        return self.g.loop.create_task(coro)
+
+    def _snapshot(self):
+        return {'wire': [list(b.wire) for b in self.bearers], 'calls': list(self.calls), 'confirmations': [b.confirmations for b in self.bearers]}
+
+    def do_faulty_bearer(self, api, force, value, faulty, mode):
+        """Fan-out call (`*_subscribers`) while ONE bearer misbehaves:
+          mode 'late'  : its Handle Value Confirmation is held back, the others are observed, then it is released
+          mode 'never' : its confirmation is lost; virtual time passes beyond the GATT timeout (30 s)
+          mode 'send_raises' : the server's transmission on that bearer raises (injected at the tap)
+        -> observations 'during' (fault outstanding, loop quiescent) and 'final'."""
+        g = self.g
+        for b in self.bearers:
+            b.wire = []
+            b.confirmations = 0
+        self.calls = []
+        self.held = []
+        self.hold = {faulty} if mode in ('late', 'never') else set()
+        self.fail_send = {faulty} if mode == 'send_raises' else set()
+        task = self._start(api, force, value)
+        g.loop.run_quiescent()
+        res = {'during': self._snapshot(), 'done_during': task.done()}
+        if mode == 'late':
+            self.hold = set()
+            held, self.held = self.held, []
+            for _bi, h in held:
+                h()
+            g.loop.run_quiescent()
+        elif mode == 'never':
+            g.loop.advance(31.0)
+            g.loop.run_quiescent()
+            self.hold = set()
+            self.held = []  # lost for good
+        self.fail_send = set()
+        self.hold = set()
+        res['final'] = self._snapshot()
+        res['done_final'] = task.done()
+        if not task.done():
+            task.cancel()
+            g.loop.run_quiescent()
+        elif not task.cancelled():
+            task.exception()  # retrieved: whether the call reports the faulty bearer's failure is not checked
+        g.loop.collect_exceptions(gc_collect=False)
+        return res
+
+
+class InjectedSendFailure(Exception):
+    pass
 
 
 # ---------------------------------------------------------------------------
